@@ -139,3 +139,17 @@ def load_corpus(prop):
                 with open(os.path.join(d, fn)) as f:
                     out.append((fn, json.load(f)))
     return out
+
+
+def quiet(logger):
+    """Silence a logger WITHOUT raising its level: every logging call of the implementation is still
+    executed down to Logger._log (so a call with bad keyword arguments still raises, as it would in
+    a default deployment), the records just go nowhere."""
+    import logging
+    if isinstance(logger, str):
+        logger = logging.getLogger(logger)
+    logger.setLevel(logging.DEBUG)
+    logger.propagate = False
+    if not any(isinstance(h, logging.NullHandler) for h in logger.handlers):
+        logger.addHandler(logging.NullHandler())
+    return logger
